@@ -372,6 +372,10 @@ pub struct ProxyCase {
     pub cuts: Vec<u16>,
     /// grow the header block to this size (0 = leave)
     pub pad_to: usize,
+    /// Some(k): one more segment boundary k bytes before the end of the header block (inside the
+    /// terminator for k = 1..3)
+    #[serde(default)]
+    pub term_cut: Option<u8>,
 }
 
 pub struct ProxyFam;
@@ -382,9 +386,16 @@ impl Family for ProxyFam {
         "proxy"
     }
     fn strategy(&self, _tier: Tier) -> BoxedStrategy<ProxyCase> {
-        let pad = prop_oneof![10 => Just(0usize), 1 => 60_000usize..64_513, 1 => 65_537usize..70_000];
-        (c17::req_strategy(false), proptest::bool::weighted(0.15), proptest::collection::vec(any::<u16>(), 0..4), pad)
-            .prop_map(|(req, refuse, cuts, pad_to)| ProxyCase { req, refuse, cuts, pad_to })
+        // header block sizes around the listener's read granularity (1 KiB) and around the 64 KiB cap
+        let pad = prop_oneof![
+            8 => Just(0usize),
+            4 => (1usize..8, 0usize..4).prop_map(|(k, d)| k * 1024 + d - 1),
+            1 => (8usize..63, 0usize..4).prop_map(|(k, d)| k * 1024 + d - 1),
+            1 => 60_000usize..64_513,
+            1 => 65_537usize..70_000,
+        ];
+        (c17::req_strategy(false), proptest::bool::weighted(0.15), proptest::collection::vec(any::<u16>(), 0..4), pad, proptest::option::weighted(0.4, 1u8..6))
+            .prop_map(|(req, refuse, cuts, pad_to, term_cut)| ProxyCase { req, refuse, cuts, pad_to, term_cut })
             .boxed()
     }
     fn case_budget_s(&self) -> u64 {
@@ -417,6 +428,9 @@ impl Family for ProxyFam {
                 let mut s = TcpStream::connect(w.http).await.map_err(|e| infra(format!("connect to the HTTP listener: {e}")))?;
                 let _ = s.set_nodelay(true);
                 let mut pts: Vec<usize> = case.cuts.iter().map(|c| idx(*c, bytes.len() + 1)).collect();
+                if let Some(k) = case.term_cut {
+                    pts.push(b.header.len().saturating_sub(k as usize));
+                }
                 pts.sort_unstable();
                 pts.dedup();
                 pts.push(bytes.len());
@@ -427,7 +441,7 @@ impl Family for ProxyFam {
                             break;
                         }
                         from = p;
-                        tokio::time::sleep(Duration::from_millis(2)).await;
+                        tokio::time::sleep(Duration::from_millis(3)).await;
                     }
                 }
                 let desc = format!("request line {:?} ({} header bytes, {} body bytes)", b.header.lines().next().unwrap_or(""), b.header.len(), req.body.len());
@@ -504,7 +518,9 @@ impl Family for ProxyFam {
         out.class_if(case.refuse, "refusing-destination");
         out.class_if(!case.req.body.is_empty(), "bytes-behind-header");
         out.class_if(case.pad_to > 65_536, "header>64KiB");
-        out.class_if(!case.cuts.is_empty(), "segmented");
+        out.class_if(!case.cuts.is_empty() || case.term_cut.is_some(), "segmented");
+        out.class_if(case.term_cut.is_some_and(|k| k <= 3), "cut-inside-terminator");
+        out.class_if(case.pad_to > 0 && case.pad_to < 60_000, "header-size-near-KiB-multiple");
         Ok(out)
     }
 }
